@@ -14,6 +14,7 @@ import (
 	"fmt"
 	"os"
 	"path/filepath"
+	"regexp"
 	"runtime/debug"
 	"sort"
 	"strings"
@@ -126,8 +127,8 @@ func judgeC01Load(args, real, _ json.RawMessage) *core.Verdict {
 		Hang       *string `json:"hang"`
 	}
 	json.Unmarshal(real, &r)
-	if r.Hang != nil {
-		return core.Fail("hang@"+shapeClass(a.Shape), fmt.Sprintf("load does not return within %s (shape %s)", *r.Hang, a.Shape))
+	if why := nonTermination(real); why != "" {
+		return core.Fail("hang@"+hangCause(a), fmt.Sprintf("load does not return (%s; shape %s)", why, a.Shape))
 	}
 	if v := core.CrashVerdict(real); v != nil {
 		return v
@@ -168,6 +169,41 @@ func judgeC01Load(args, real, _ json.RawMessage) *core.Verdict {
 		}
 	}
 	return nil
+}
+
+// nonTermination: the watchdog fired, or unbounded recursion ended in stack / memory exhaustion — the same
+// defect seen on a slow or a fast machine, so both get the same key.
+func nonTermination(real json.RawMessage) string {
+	var m map[string]any
+	if json.Unmarshal(real, &m) != nil {
+		return ""
+	}
+	if h, ok := m["hang"]; ok {
+		return fmt.Sprintf("no answer within %v", h)
+	}
+	if f, ok := m["fatal"].(string); ok && (f == "stack-overflow" || f == "out-of-memory" || strings.Contains(f, "stack") || strings.Contains(f, "memory")) {
+		return "process died: " + f
+	}
+	return ""
+}
+
+var selfMergeRe = regexp.MustCompile(`<<\s*:\s*\[?\s*\*`)
+
+// hangCause names the construct that makes a load loop, from the input itself (stable across streams and seeds).
+func hangCause(a c01Args) string {
+	inc := false
+	for _, c := range a.Req.Files {
+		if selfMergeRe.MatchString(c) {
+			return "alias-self-merge"
+		}
+		if strings.Contains(c, "include") {
+			inc = true
+		}
+	}
+	if inc {
+		return "include-override-position"
+	}
+	return shapeClass(a.Shape)
 }
 
 func modeName(m string) string {
